@@ -1,5 +1,6 @@
-(* C10 - print/read round trip on data. Only statements; proofs in Data/RoundTrip.v, Data/DecimalProofs.v. *)
-From PL Require Import Data.Reader Data.Printer Data.ReaderProofs Data.RoundTrip Data.DecimalProofs.
+(* C10 - print/read round trip on data. Only statements; proofs in Data/RoundTrip.v, Data/DecimalProofs.v,
+   Data/TokenLemmas.v, Data/DatumRoundTrip.v. *)
+From PL Require Import Data.Reader Data.Printer Data.ReaderProofs Data.RoundTrip Data.DecimalProofs Data.TokenLemmas Data.DatumRoundTrip.
 Local Open Scope N_scope.
 
 Theorem C10_integer_round_trip : forall z, in_i64 z = true -> parse_i64 (show_i64 z) = Some z.
@@ -29,3 +30,53 @@ Print Assumptions C10_string_round_trip.
 Example C10_readable_examples : readable_char 97 = true /\ readable_char 10 = true /\ readable_char 92 = true /\ readable_char 40 = false /\
   symbol_start 97 = true /\ symbol_start 45 = false.
 Proof. vm_compute. repeat split. Qed.
+
+(* every 64-bit integer as a token, followed by anything that starts with a delimiter (or nothing) *)
+Theorem C10_number_token_round_trip : forall z rest cur, in_i64 z = true -> atom_ending rest false = Some true ->
+  exists l1 l2, next_token (show_i64 z ++ rest) false cur = Some (inl {| tv := TNum z; tloc := l1; trest := rest; tcur := l2 |}).
+Proof. exact number_round_trip. Qed.
+Print Assumptions C10_number_token_round_trip.
+
+(* THE PROPERTY, for every datum of any shape, length and depth (below the printer's depth limit): the value
+   prints as [show x]; that text reads back as exactly one datum with nothing left over; the value read denotes
+   the same abstract datum (a string and the list of its characters denote the same one); it prints again as
+   the same text *)
+Theorem C10_datum_round_trip : forall x v d fuel src line col,
+  denotes v x -> wf x = true -> (ddepth x < fuel)%nat -> d + N.of_nat (ddepth x) <= MAX_RECURSION_DEPTH ->
+  print_internal fuel v d = PrOk (show x) /\
+  exists v' l, read_text src (show x) false line col = inl (v', [], l) /\ denotes v' x /\
+               print_internal fuel v' d = PrOk (show x).
+Proof. exact datum_round_trip. Qed.
+Print Assumptions C10_datum_round_trip.
+
+(* with more input behind it: exactly the datum's text is consumed *)
+Theorem C10_datum_round_trip_rest : forall x rest src cur, wf x = true -> atom_ending rest false = Some true ->
+  exists v' l, denotes v' x /\ forall f, rd (ntok x + f) src (show x ++ rest) false cur [] false = inl (v', rest, l).
+Proof. exact datum_round_trip_rest. Qed.
+Print Assumptions C10_datum_round_trip_rest.
+
+(* the abstraction identifies nothing but what the property identifies: a value denotes at most one datum ... *)
+Theorem C10_denotes_is_a_function : forall x v y, denotes v x -> denotes v y -> x = y.
+Proof. exact denotes_fun. Qed.
+Print Assumptions C10_denotes_is_a_function.
+
+(* ... and every value of the domain (integers, characters, named symbols, nil-terminated lists, nested) denotes one *)
+Theorem C10_every_proper_value_denotes : forall v, proper v = true -> exists x, denotes v x.
+Proof. exact denotes_total. Qed.
+Print Assumptions C10_every_proper_value_denotes.
+
+(* printing never needs the readability premise *)
+Theorem C10_print_of_a_datum : forall x v d fuel, denotes v x -> (ddepth x < fuel)%nat ->
+  d + N.of_nat (ddepth x) <= MAX_RECURSION_DEPTH -> print_internal fuel v d = PrOk (show x).
+Proof. exact print_denotes. Qed.
+Print Assumptions C10_print_of_a_datum.
+
+(* the class outside [wf] that is an open finding: a delimiter character has no literal *)
+Theorem C10_delimiter_character_refuted :
+  readable_char c_open = false /\ show (DChr c_open) = [c_pct; c_open] /\
+  (forall v l, read_text SrcStdin (show (DChr c_open)) false 1 1 <> inl (v, [], l)).
+Proof. exact delimiter_character_does_not_read_back. Qed.
+Print Assumptions C10_delimiter_character_refuted.
+
+Example C10_datum_example : wf sample_datum = true /\ denotes sample_value sample_datum.
+Proof. split; [exact sample_is_wf|exact sample_denotes]. Qed.
